@@ -83,6 +83,10 @@ type Mapper struct {
 	// user code runs there, anything may happen in it
 	Hook      func(k int, what string)
 	Callbacks int
+	// Rename: the table the mapper returns for "db.table" carries this name
+	// (shard tables folded into one logical table, canonicalised names): the name
+	// of a delivered rows event is the name of the MysqlTable its columns come from
+	Rename map[string][2]string
 }
 
 // NewMapper builds a mapper knowing the given tables.
@@ -123,6 +127,9 @@ func (m *Mapper) MysqlTable(name gobinlog.MysqlTableName) (gobinlog.MysqlTable, 
 		return nil, fmt.Errorf("unknown table %s.%s", name.DbName, name.TableName)
 	}
 	tb := table{name: name, m: m}
+	if nn, ok := m.Rename[name.DbName+"."+name.TableName]; ok {
+		tb.name = gobinlog.NewMysqlTableName(nn[0], nn[1])
+	}
 	for _, c := range t.Cols {
 		tb.cols = append(tb.cols, column{c.Name, c.Unsigned, m})
 	}
